@@ -229,6 +229,11 @@ fn fetch(c: &Case) -> Result<attohttpc::Response, attohttpc::Error> {
     if c.defaults == Defaults::SessionThenRequestNone {
         rb = rb.default_charset(None);
     }
+    // an unrelated request-level setter (the settings are copied on write at that moment) does not
+    // change which default applies
+    if c.body.len() % 2 == 0 {
+        rb = rb.read_timeout(std::time::Duration::from_secs(7)).max_redirections(3);
+    }
     rb.send()
 }
 
